@@ -8,6 +8,7 @@ package discovery
 //@   props C13 C10
 //@   requires len(tag) == 32
 //@   requires msgTypeMembership <= msgType && msgType <= msgTypeResponse
+//@   modifies nothing
 //@   ensures [shape]  len(result) == 33 + 2*len(peers) && result[0] == byte(msgType)
 //@   ensures [tag]    forall j int :: 0 <= j && j < 32 ==> result[1+j] == tag[j]
 //@   ensures [peers]  forall i int :: 0 <= i && i < len(peers) ==>
@@ -19,6 +20,8 @@ package discovery
 //@
 //@ func decodeTagAndMembershipList
 //@   props C13 C10
+//@   modifies nothing
+//@   ensures [total] len(msg) >= 33 && (len(msg)-33) % 2 == 0 && msgTypeMembership <= msgType(msg[0]) && msgType(msg[0]) <= msgTypeResponse ==> result.3 == nil
 //@   ensures [len]   result.3 == nil ==> len(msg) >= 33 && (len(msg)-33) % 2 == 0
 //@   ensures [type]  result.3 == nil ==> result.0 == msgType(msg[0]) && msgTypeMembership <= result.0 && result.0 <= msgTypeResponse
 //@   ensures [tag]   result.3 == nil ==> len(result.1) == 32 && forall j int :: 0 <= j && j < 32 ==> result.1[j] == msg[1+j]
